@@ -20,13 +20,15 @@ def runs(tier, seed, replay):
 
 CONFIG = {
     "runs": runs,
-    "status": "full after the repair F2 for everything the model covers; refuted before it; resources (K6) and the enum cursor "
-              "precondition are named gaps. Model/StreamMsg.v = token-level model of handle_stream_msg over ASCII lines (split_whitespace, "
+    "status": "full after the repair F2 for everything the model covers; refuted before it; the enum cursor precondition is the named gap "
+              "(K6 = range expansion before the boundary check is fixed by F18, /repo 2026f7b; C13_f18_same_result: the repaired get_numbers "
+              "returns the same Ok value / error code and text / panic as the expanding model for every token list, every boundary 0 <= b and both "
+              "profiles, so the model did not have to change; time and memory are not modelled). Model/StreamMsg.v = token-level model of handle_stream_msg over ASCII lines (split_whitespace, "
               "duplicate check, total-features pre-pass, keyword loop with the param_index arithmetic, get_numbers with the nom prefix "
               "parsers a..b | a.. | a, i32 overflow, zero removal, boundary check, get_floats / split_clauses with the f64 grammar, u64/usize "
               "parse, dispatch, op_with_assumptions_and_vars, format_vec / format_vec_vec; every unwrap / index / slice / remove / abs / "
               "negation / usize + / to_usize().expect / BigInt % is an explicit Panic branch; V0 = before F2, V1 = after; debug and release "
-              "profiles). Proved (23 theorems, closed under the global context): "
+              "profiles). Proved (24 theorems, closed under the global context): "
               "C13_parse_no_panic (every line, every state, both profiles: the parsing half never reaches a partial operation and terminates), "
               "C13_no_panic (whole handler; unconditional for every line that is not an accepted enum request, for enum under enum_safe = the "
               "cursor does not exceed the count and the root is not a true node; C13_enum_guard_needed: that hypothesis cannot be dropped, "
@@ -38,7 +40,7 @@ CONFIG = {
               "enum only moves the cursor), C13_result_count / _sat / _core (answer = ';'-joined rendering of the TRUTH-TABLE answers of the "
               "parsed request, through the C02 / C03 / C05 theorems), C13_result_enum / _random (rendering of the library call of "
               "Model/Enumerate.v), C13_ranges_closed / _open / C13_range_members / _ascending (a..b and a.. with decimal integers = the "
-              "inclusive ascending list without 0), C13_param_order (two well-formed groups a|v|seed|limit|path after the command commute: same "
+              "inclusive ascending list without 0), C13_f18_same_result (Proofs/C13F18.v: get_numbers_f18 = the code after F18, a limited range a <= b with an end point outside the boundary contributes [a, b] only; equal to get_numbers V1 everywhere, by the invariant \"accumulators equal, or both hold a number outside the boundary\"), C13_param_order (two well-formed groups a|v|seed|limit|path after the command commute: same "
               "outcome and successor state) and C13_param_order_anywhere + C13_kw_loop_suffix (anywhere in the line). "
               "atomic / t-wise / clause-update / undo-update / save-* are parameters of the model (ext_total / ext_keeps = the statements of "
               "C08 C09 C10 C12); the f/add/rmv groups are outside C13_param_order (partial there)",
@@ -51,9 +53,12 @@ CONFIG = {
         "independent oracle: no panic; truth-table answers for well-formed count / sat / core lines (own mini-parser); probe battery "
         "(count, sat, core, enum cursor) unchanged across rejected and non-mutating lines; same request in another group order / spelling / "
         "blanks = same answer; fresh instance = long-lived instance",
-        "not run (resource guard): ranges expanding to more than 100 000 numbers (K6), random / t-wise limits above 64, save-* to absolute paths "
+        "not run (resource guard): ranges expanding to more than 100 000 numbers (guard kept from K6; since F18 only ranges INSIDE the boundary expand), random / t-wise limits above 64, save-* to absolute paths "
         "outside the scratch directory; the sampling choices of `random` are replayed from hook H2, atomic / t-wise answers are replayed",
         "without repo_patches/F2-stream-panics.patch applied to /repo this check reports VIOLATION (stream:panic)",
+        "the enum cursor is the one of the SET of assumed literals (enum_key, repair F19 of finding K12): a fixed battery of `enum a ...` lines spelling "
+        "{1} and {1,-2} with repeated literals in different orders is compared exactly; without repo_patches/F19-enum-cursor-key-set.patch applied to /repo "
+        "this check reports 22 DIFFs (the second spelling starts a cycle of its own)",
     ],
     "rule": "one case = one block of up to 2500 lines on one long-lived instance; evaluations = blocks; the line counts are in driver_stats "
             "(c13_lines, c13_answer_<code> = error-kind histogram); non-trivial = flattened circuit has And and Or nodes",
